@@ -149,7 +149,8 @@ def _check(prop, tier, replay, C):
     diffs = []
     for h in P["harness"]:
         name = h["name"]
-        cmd = [C.GO, "test", "-overlay", overlay, "-tags", "verif", "-vet=off", "-count=1",
+        cmd = [C.GO, "test", "-modfile", C.modfile(os.path.join(outdir, "gomod")),
+               "-overlay", overlay, "-tags", "verif", "-vet=off", "-count=1",
                "-timeout", h.get("timeout_" + tier, "20m"), "-run", "^" + h["test"] + "$"] + \
               h.get("go_flags", []) + [h["pkg"]]
         sp = os.path.join(outdir, name + ".summary.json")
